@@ -107,6 +107,9 @@ struct Spec {
     /// `&mut` parameters the function appends to (`events: &mut Vec<…>`): mutable locals of that name that start as
     /// the binder of the same name
     mut_params: &'static [&'static str],
+    /// enums of a dependency (rpki-rs): (name, variants) - generated WITHOUT payload from this list (trusted, printed
+    /// into the header); the variants of a third-party enum cannot be re-read from /repo
+    extern_enums: &'static [(&'static str, &'static [&'static str])],
     /// opaque tail: when the REMAINING statements of the function body (at function level, compact, joined)
     /// are exactly this text, they are not translated but stand for the given Lean term
     tail: Option<(&'static str, &'static str)>,
@@ -144,6 +147,7 @@ const SPECS: &[Spec] = &[
         cond_effects: &[],
         self_fields: &[],
         mut_params: &[],
+        extern_enums: &[],
         tail: None,
         note: "`self` is only consulted through `is_currently_aggregating()` (a Bool parameter).",
     },
@@ -180,6 +184,7 @@ const SPECS: &[Spec] = &[
         cond_effects: &[],
         self_fields: &[],
         mut_params: &[],
+        extern_enums: &[],
         tail: None,
         note: "deltas are abstract (`Δ`); the two wall-clock tests of a delta are parameter functions \
                `younger`/`older : Δ → seconds → Bool`; the four fields of `RrdpUpdatesConfig` are parameters.",
@@ -213,6 +218,7 @@ const SPECS: &[Spec] = &[
         cond_effects: &[],
         self_fields: &[],
         mut_params: &[],
+        extern_enums: &[],
         tail: None,
         note: "`Time` and `Duration` are whole seconds (`Int`); `Time - Duration` and `Time > Time` are the integer operations; \
                the wall clock `Time::now()` is a parameter; `self.next_update()` is the getter of `self.revision.next_update`.",
@@ -247,6 +253,7 @@ const SPECS: &[Spec] = &[
         cond_effects: &[],
         self_fields: &[],
         mut_params: &[],
+        extern_enums: &[],
         tail: None,
         note: "key object sets are abstract (`S`), `KeyObjectSet::requires_reissuance` is the parameter `due`; the payload of \
                `ResourceClassKeyState` is flattened into the three set parameters (each arm only reads the sets its variant has).",
@@ -293,6 +300,7 @@ const SPECS: &[Spec] = &[
         cond_effects: &[],
         self_fields: &[],
         mut_params: &[],
+        extern_enums: &[],
         tail: None,
         note: "ROAs (`ρ`), route origins (`ω`) and payloads (`π`) are abstract; AS numbers and prefix lengths are `Nat` \
                (`AsNumber::AS0` = 0); what the loop reads of a ROA are parameter functions (`roa_covers r` = \
@@ -340,6 +348,7 @@ const SPECS: &[Spec] = &[
         cond_effects: &[],
         self_fields: &[],
         mut_params: &[],
+        extern_enums: &[],
         tail: None,
         note: "FLOATS: the two `f64` ratio tests `e/c < 0.9`, `e/c > 1.1` are NOT translated but mapped to the integer \
                predicates `10·e < 9·c`, `10·e > 11·c` of the model (they are only evaluated for `c > 0`, where the exact \
@@ -387,6 +396,7 @@ const SPECS: &[Spec] = &[
         cond_effects: &[],
         self_fields: &[],
         mut_params: &[],
+        extern_enums: &[],
         tail: None,
         note: "the key-value transaction is abstract (`σ`, keys `κ`): the three store calls are parameter functions on it \
                and the function returns the final store (the closure's `Ok(())`); errors of the store (`?`) are outside the \
@@ -427,6 +437,7 @@ const SPECS: &[Spec] = &[
         cond_effects: &[],
         self_fields: &[],
         mut_params: &[],
+        extern_enums: &[],
         tail: None,
         note: "permission sets `S`, permissions `P` and handles `H` are abstract; `PermissionSet::has` is the parameter \
                `has`; the hash map `self.resources` enters through its look-up function `entry` (`HashMap::get`); the \
@@ -465,6 +476,7 @@ const SPECS: &[Spec] = &[
         cond_effects: &[],
         self_fields: &[],
         mut_params: &[],
+        extern_enums: &[],
         tail: None,
         note: "the three providers are abstract: `legacy_provider` is the optional legacy (admin token) provider and \
                `legacy_authenticate` its `authenticate`; `primary` / `unix_socket` are the RESULTS of the primary \
@@ -498,6 +510,7 @@ const SPECS: &[Spec] = &[
         cond_effects: &[],
         self_fields: &[],
         mut_params: &[],
+        extern_enums: &[],
         tail: None,
         note: "`u8` ↦ `Nat`; `self.max_length` and the prefix length `self.prefix.addr_len()` are parameters.",
     },
@@ -525,6 +538,7 @@ const SPECS: &[Spec] = &[
         cond_effects: &[],
         self_fields: &[],
         mut_params: &[],
+        extern_enums: &[],
         tail: None,
         note: "`u8` ↦ `Nat`; of `self.prefix` only the address family (the variant of `TypedPrefix`) and the length \
                `addr_len()` are consulted.",
@@ -560,6 +574,7 @@ const SPECS: &[Spec] = &[
         cond_effects: &[],
         self_fields: &[],
         mut_params: &[],
+        extern_enums: &[],
         tail: None,
         note: "`1u128.checked_shl(n).unwrap_or(u128::MAX)` is the parameter `shl_sat n` (the theorem instantiates it with \
                the checked shift of `Input/Checked.lean`: `2^n` for `n < 128`, else `2^128 - 1`); `saturating_sub` on `u8` \
@@ -602,6 +617,7 @@ const SPECS: &[Spec] = &[
         cond_effects: &[],
         self_fields: &[],
         mut_params: &[],
+        extern_enums: &[],
         tail: None,
         note: "nonces `ν`, the associated signer `σ`, errors `ε` and the accepted event list `α` are abstract; \
                `response.validate(&signer.id)` (CMS signature check against the associated signer's identity key) is the \
@@ -636,6 +652,7 @@ const SPECS: &[Spec] = &[
         cond_effects: &[],
         self_fields: &[],
         mut_params: &[],
+        extern_enums: &[],
         tail: None,
         note: "the event `SignerRequestMade(Nonce::new())` (fresh random nonce) is the parameter `made`.",
     },
@@ -681,6 +698,7 @@ const SPECS: &[Spec] = &[
         cond_effects: &[],
         self_fields: &[],
         mut_params: &[],
+        extern_enums: &[],
         tail: None,
         note: "delta elements `E` are abstract (one type for the three lists; the theorem instantiates it with the model's \
                `Elem`): `jail.is_parent_of(&x.uri)` is `in_jail x`, `self.0.contains_key(&CurrentObjectUri::from(&x.uri))` \
@@ -720,6 +738,7 @@ const SPECS: &[Spec] = &[
         cond_effects: &[],
         self_fields: &[],
         mut_params: &[],
+        extern_enums: &[],
         tail: Some((
             "letmutchild_certificate_updates=ChildCertificateUpdates::default();child_certificate_updates.removed.push(key);\
              letcert_name=ObjectName::from_key(&key,\"cer\");info!(\"CA'{}'revokedcertificate'{}'forchild'{}'\",self.handle,cert_name,child_handle);\
@@ -791,6 +810,7 @@ const SPECS: &[Spec] = &[
         cond_effects: &[("desired_routes.remove(&auth)", "(has desired_routes auth)", "desired_routes", "remove desired_routes auth")],
         self_fields: &[],
         mut_params: &[],
+        extern_enums: &[],
         tail: None,
         note: "the route map `Rt`, events `Ev`, the error collection `Δ`, payloads `π`, configurations `κ` (payload + comment \
                `Option χ`) and the error `ε` are abstract; the map key `RoaPayloadJsonMapKey::from(payload)` is the payload \
@@ -828,6 +848,7 @@ const SPECS: &[Spec] = &[
         cond_effects: &[],
         self_fields: &[],
         mut_params: &[],
+        extern_enums: &[],
         tail: None,
         note: "handles `H`, child records `C`, messages `M`, errors `ε` are abstract: `sender` is the sender handle INSIDE the \
                CMS message, `get_child` the look-up in THIS CA's child table, `validate child` the signature check of the CMS \
@@ -875,6 +896,7 @@ const SPECS: &[Spec] = &[
         cond_effects: &[],
         self_fields: &[],
         mut_params: &[],
+        extern_enums: &[],
         tail: None,
         note: "handles `H`, CAs `CA`, the validated request `Q`, the unsigned reply `M` (both `provisioning::Message` in Rust), reply bytes `B`, errors `ε` are abstract: `get_ca` loads the CA NAMED IN \
                THE REQUEST URI, `validate ca` is `rfc6492_validate_request` (decode + `verify_rfc6492` against that CA's child \
@@ -913,6 +935,7 @@ const SPECS: &[Spec] = &[
         cond_effects: &[],
         self_fields: &[],
         mut_params: &[],
+        extern_enums: &[],
         tail: None,
         note: "the key state enters as its variant (payloads dropped) and the identifiers of the keys its payload holds: \
                `pending.key_id`, `current.key_id`, `new.key_id`, `old.key.key_id` are the parameters `pending_key` … \
@@ -948,6 +971,7 @@ const SPECS: &[Spec] = &[
         cond_effects: &[],
         self_fields: &[],
         mut_params: &[],
+        extern_enums: &[],
         tail: None,
         note: "`get_child` is the look-up of the child (an unknown child is an error), `has_open_response child` whether the \
                proxy holds a response for (child, key); the one event `ChildResponseGiven(child, key)` and the refusal are \
@@ -990,6 +1014,7 @@ const SPECS: &[Spec] = &[
         cond_effects: &[],
         self_fields: &[],
         mut_params: &[],
+        extern_enums: &[],
         tail: Some((
             "for(base_repo,key_id)inkeys_for_requests.into_iter(){events.push(CertAuthEvent::CertificateRequested{resource_class_name:rcn.clone(),req:self.create_issuance_req(base_repo,name_space,entitlement.class_name().clone(),&key_id,signer,)?,ki:key_id,});}forkeyinentitlement.issued_certs().iter().map(|c|c.cert().subject_key_identifier()){if!self.knows_key(key){letrevoke_req=RevocationRequest::new(entitlement.class_name().clone(),key,);events.push(CertAuthEvent::UnexpectedKeyFound{resource_class_name:rcn.clone(),revoke_req,});}}Ok(())",
             "keys_for_requests",
@@ -1030,6 +1055,7 @@ const SPECS: &[Spec] = &[
         cond_effects: &[],
         self_fields: &["number", "this_update", "next_update"],
         mut_params: &[],
+        extern_enums: &[],
         tail: None,
         note: "times `T` are abstract; `Time::five_minutes_ago()` is a parameter; the result is (number, this_update, \
                next_update) of the revision after the call.",
@@ -1068,11 +1094,264 @@ const SPECS: &[Spec] = &[
         cond_effects: &[],
         self_fields: &[],
         mut_params: &["events"],
+        extern_enums: &[],
         tail: None,
         note: "the key state enters as its variant, whether the new and the current key have an open certificate request \
                (`request.is_some()`) and the current key's identifier; `Self::revoke_key(parent class, current key, signer)` \
                builds the revocation request for the CURRENT (soon old) key; the function returns the events it appended to \
                (`Ok(())` ↦ `Ok(events)`).",
+    },
+    Spec {
+        id: "C19",
+        file: "src/api/ca.rs",
+        ty: "RepoStatus",
+        method: "set_last_updated",
+        lean: "RepoStatus.set_last_updated",
+        sig: "&mutself,uri:ServiceUri->()",
+        binders: "{T U X : Type} (exchange_success : T → U → X) (self_last_exchange : Option X) (self_last_success : Option T) (now : T) (uri : U)",
+        args: "exchange_success self_last_exchange self_last_success now uri",
+        ret: "Option X × Option T",
+        num: Num::Nat,
+        names: &[("Timestamp::now()", "now"), ("Some(ParentExchange{timestamp,uri,result:ExchangeResult::Success,})", "(some (exchange_success timestamp uri))")],
+        methods: &[],
+        state_ty: &[],
+        elem_ty: "",
+        enums: &[],
+        structs: &[],
+        types: &[],
+        opaque_lets: &[],
+        effects: &[],
+        wrapper: None,
+        cond_effects: &[],
+        self_fields: &["last_exchange", "last_success"],
+        mut_params: &[],
+        extern_enums: &[],
+        tail: None,
+        note: "time stamps `T`, URIs `U` and exchange records `X` are abstract; `ParentExchange { timestamp, uri, result: Success }` is the parameter function `exchange_success`; the clock is the parameter `now`; the result is (last_exchange, last_success) after the call.",
+    },
+    Spec {
+        id: "C19",
+        file: "src/api/ca.rs",
+        ty: "RepoStatus",
+        method: "set_failure",
+        lean: "RepoStatus.set_failure",
+        sig: "&mutself,uri:ServiceUri,error:ErrorResponse->()",
+        binders: "{T U X ε : Type} (exchange_failure : T → U → ε → X) (self_last_exchange : Option X) (now : T) (uri : U) (error : ε)",
+        args: "exchange_failure self_last_exchange now uri error",
+        ret: "Option X",
+        num: Num::Nat,
+        names: &[("Timestamp::now()", "now"), ("Some(ParentExchange{timestamp,uri,result:ExchangeResult::Failure(error),})", "(some (exchange_failure timestamp uri error))")],
+        methods: &[],
+        state_ty: &[],
+        elem_ty: "",
+        enums: &[],
+        structs: &[],
+        types: &[],
+        opaque_lets: &[],
+        effects: &[],
+        wrapper: None,
+        cond_effects: &[],
+        self_fields: &["last_exchange"],
+        mut_params: &[],
+        extern_enums: &[],
+        tail: None,
+        note: "`ParentExchange { timestamp, uri, result: Failure(error) }` is the parameter function `exchange_failure`; the result is last_exchange after the call (last_success and the published list are not assigned).",
+    },
+    Spec {
+        id: "C19",
+        file: "src/api/ca.rs",
+        ty: "RepoStatus",
+        method: "update_published",
+        lean: "RepoStatus.update_published",
+        sig: "&mutself,uri:ServiceUri,delta:PublishDelta->()",
+        binders: "{T U X E F : Type} (exchange_success : T → U → X) (kind : E → PublishDeltaElement) (file_of : E → F) (same_uri : E → F → Bool) (self_last_exchange : Option X) (self_last_success : Option T) (self_published : List F) (now : T) (uri : U) (elements : List E)",
+        args: "exchange_success kind file_of same_uri self_last_exchange self_last_success self_published now uri elements",
+        ret: "Option X × Option T × List F",
+        num: Num::Nat,
+        names: &[("Timestamp::now()", "now"), ("Some(ParentExchange{timestamp,uri,result:ExchangeResult::Success,})", "(some (exchange_success timestamp uri))"), ("delta.into_elements()", "elements"), ("match element", "kind element")],
+        methods: &[],
+        state_ty: &[("self_last_exchange", "Option X"), ("self_last_success", "Option T"), ("self_published", "List F")],
+        elem_ty: "E",
+        enums: &[],
+        structs: &[],
+        types: &[],
+        opaque_lets: &[("(_tag,uri,base64)", "publish.unpack()"), ("(_tag,uri,base64,_hash)", "update.unpack()"), ("(_tag,uri,_hash)", "withdraw.unpack()")],
+        effects: &[("self.published.retain(|el|el.uri!=uri)", "self_published", "self_published.filter (fun el => !(same_uri element el))"), ("self.published.push(PublishedFile{uri,base64})", "self_published", "self_published ++ [file_of element]")],
+        wrapper: None,
+        cond_effects: &[],
+        self_fields: &["last_exchange", "last_success", "published"],
+        mut_params: &[],
+        extern_enums: &[("PublishDeltaElement", &["Publish", "Update", "Withdraw"])],
+        tail: None,
+        note: "delta elements `E` and published files `F` are abstract: `kind` is the variant of an element (rpki-rs `PublishDeltaElement`), inside an arm `uri` / `base64` are the unpacked fields of THAT element: `el.uri != uri` is `!(same_uri element el)`, `PublishedFile { uri, base64 }` is `file_of element`; the result is (last_exchange, last_success, published) after the call.",
+    },
+    Spec {
+        id: "C19",
+        file: "src/api/ca.rs",
+        ty: "ParentStatus",
+        method: "set_last_updated",
+        lean: "ParentStatus.set_last_updated",
+        sig: "&mutself,uri:ServiceUri->()",
+        binders: "{T U X : Type} (exchange_success : T → U → X) (self_last_exchange : Option X) (self_last_success : Option T) (now : T) (uri : U)",
+        args: "exchange_success self_last_exchange self_last_success now uri",
+        ret: "Option X × Option T",
+        num: Num::Nat,
+        names: &[("Timestamp::now()", "now"), ("Some(ParentExchange{timestamp,uri,result:ExchangeResult::Success,})", "(some (exchange_success timestamp uri))")],
+        methods: &[],
+        state_ty: &[],
+        elem_ty: "",
+        enums: &[],
+        structs: &[],
+        types: &[],
+        opaque_lets: &[],
+        effects: &[],
+        wrapper: None,
+        cond_effects: &[],
+        self_fields: &["last_exchange", "last_success"],
+        mut_params: &[],
+        extern_enums: &[],
+        tail: None,
+        note: "as `RepoStatus::set_last_updated`.",
+    },
+    Spec {
+        id: "C19",
+        file: "src/api/ca.rs",
+        ty: "ParentStatus",
+        method: "set_failure",
+        lean: "ParentStatus.set_failure",
+        sig: "&mutself,uri:ServiceUri,error:ErrorResponse->()",
+        binders: "{T U X ε : Type} (exchange_failure : T → U → ε → X) (self_last_exchange : Option X) (now : T) (uri : U) (error : ε)",
+        args: "exchange_failure self_last_exchange now uri error",
+        ret: "Option X",
+        num: Num::Nat,
+        names: &[("Some(ParentExchange{timestamp:Timestamp::now(),uri,result:ExchangeResult::Failure(error),})", "(some (exchange_failure now uri error))")],
+        methods: &[],
+        state_ty: &[],
+        elem_ty: "",
+        enums: &[],
+        structs: &[],
+        types: &[],
+        opaque_lets: &[],
+        effects: &[],
+        wrapper: None,
+        cond_effects: &[],
+        self_fields: &["last_exchange"],
+        mut_params: &[],
+        extern_enums: &[],
+        tail: None,
+        note: "as `RepoStatus::set_failure` (the clock is read inside the record).",
+    },
+    Spec {
+        id: "C19",
+        file: "src/api/ca.rs",
+        ty: "ParentStatus",
+        method: "set_entitlements",
+        lean: "ParentStatus.set_entitlements",
+        sig: "&mutself,uri:ServiceUri,entitlements:&ResourceClassListResponse->()",
+        binders: "{T U X C R : Type} (exchange_success : T → U → X) (resources_of : C → R) (union : R → R → R) (empty : R) (self_last_exchange : Option X) (self_last_success : Option T) (self_all_resources : R) (self_classes : List C) (now : T) (uri : U) (entitlement_classes : List C)",
+        args: "exchange_success resources_of union empty self_last_exchange self_last_success self_all_resources self_classes now uri entitlement_classes",
+        ret: "Option X × Option T × R × List C",
+        num: Num::Nat,
+        names: &[("ResourceSet::default()", "empty"), ("&self.classes", "self_classes"), ("class.resource_set()", "(resources_of «class»)")],
+        methods: &[(("all_resources", "union"), "union all_resources")],
+        state_ty: &[("self_last_exchange", "Option X"), ("self_last_success", "Option T"), ("self_all_resources", "R"), ("self_classes", "List C"), ("all_resources", "R")],
+        elem_ty: "C",
+        enums: &[],
+        structs: &[],
+        types: &[],
+        opaque_lets: &[],
+        effects: &[("self.set_last_updated(uri)", "self_last_exchange", "(ParentStatus.set_last_updated exchange_success self_last_exchange self_last_success now uri).1"), ("self.set_last_updated(uri)", "self_last_success", "(ParentStatus.set_last_updated exchange_success self_last_exchange self_last_success now uri).2"), ("self.classes.clone_from(entitlements.classes())", "self_classes", "entitlement_classes")],
+        wrapper: None,
+        cond_effects: &[],
+        self_fields: &["last_exchange", "last_success", "all_resources", "classes"],
+        mut_params: &[],
+        extern_enums: &[],
+        tail: None,
+        note: "entitlement classes `C` and resource sets `R` are abstract (`resources_of`, `union`, `empty` are rpki-rs operations); the call `self.set_last_updated(uri)` is the GENERATED definition of that method applied to the two fields it assigns; the result is (last_exchange, last_success, all_resources, classes) after the call.",
+    },
+    Spec {
+        id: "C19",
+        file: "src/api/ca.rs",
+        ty: "ChildStatus",
+        method: "set_success",
+        lean: "ChildStatus.set_success",
+        sig: "&mutself,user_agent:Option<String>->()",
+        binders: "{T X A : Type} (child_success : T → A → X) (self_last_exchange : Option X) (self_last_success self_suspended : Option T) (now : T) (user_agent : A)",
+        args: "child_success self_last_exchange self_last_success self_suspended now user_agent",
+        ret: "Option X × Option T × Option T",
+        num: Num::Nat,
+        names: &[("Timestamp::now()", "now"), ("Some(ChildExchange{result:ExchangeResult::Success,timestamp,user_agent,})", "(some (child_success timestamp user_agent))")],
+        methods: &[],
+        state_ty: &[],
+        elem_ty: "",
+        enums: &[],
+        structs: &[],
+        types: &[],
+        opaque_lets: &[],
+        effects: &[],
+        wrapper: None,
+        cond_effects: &[],
+        self_fields: &["last_exchange", "last_success", "suspended"],
+        mut_params: &[],
+        extern_enums: &[],
+        tail: None,
+        note: "`ChildExchange { result: Success, timestamp, user_agent }` is the parameter function `child_success`; the result is (last_exchange, last_success, suspended) after the call.",
+    },
+    Spec {
+        id: "C19",
+        file: "src/api/ca.rs",
+        ty: "ChildStatus",
+        method: "set_failure",
+        lean: "ChildStatus.set_failure",
+        sig: "&mutself,user_agent:Option<String>,error_response:ErrorResponse->()",
+        binders: "{T X A ε : Type} (child_failure : T → A → ε → X) (self_last_exchange : Option X) (self_suspended : Option T) (now : T) (user_agent : A) (error_response : ε)",
+        args: "child_failure self_last_exchange self_suspended now user_agent error_response",
+        ret: "Option X × Option T",
+        num: Num::Nat,
+        names: &[("Some(ChildExchange{timestamp:Timestamp::now(),result:ExchangeResult::Failure(error_response),user_agent,})", "(some (child_failure now user_agent error_response))")],
+        methods: &[],
+        state_ty: &[],
+        elem_ty: "",
+        enums: &[],
+        structs: &[],
+        types: &[],
+        opaque_lets: &[],
+        effects: &[],
+        wrapper: None,
+        cond_effects: &[],
+        self_fields: &["last_exchange", "suspended"],
+        mut_params: &[],
+        extern_enums: &[],
+        tail: None,
+        note: "the result is (last_exchange, suspended) after the call; last_success is not assigned.",
+    },
+    Spec {
+        id: "C19",
+        file: "src/api/ca.rs",
+        ty: "ChildStatus",
+        method: "set_suspended",
+        lean: "ChildStatus.set_suspended",
+        sig: "&mutself->()",
+        binders: "{T : Type} (self_suspended : Option T) (now : T)",
+        args: "self_suspended now",
+        ret: "Option T",
+        num: Num::Nat,
+        names: &[("Timestamp::now()", "now")],
+        methods: &[],
+        state_ty: &[],
+        elem_ty: "",
+        enums: &[],
+        structs: &[],
+        types: &[],
+        opaque_lets: &[],
+        effects: &[],
+        wrapper: None,
+        cond_effects: &[],
+        self_fields: &["suspended"],
+        mut_params: &[],
+        extern_enums: &[],
+        tail: None,
+        note: "the result is `suspended` after the call.",
     },
 ];
 
@@ -1137,7 +1416,7 @@ impl<'a> Tr<'a> {
     }
 
     fn enum_known(&self, n: &str) -> bool {
-        self.spec.enums.iter().any(|(e, _, _)| *e == n)
+        self.spec.enums.iter().any(|(e, _, _)| *e == n) || self.spec.extern_enums.iter().any(|(e, _)| *e == n)
     }
 
     fn enum_has_payload(&self, n: &str) -> bool {
@@ -1744,11 +2023,32 @@ impl<'a> Tr<'a> {
     fn stmt_expr(&mut self, e: &syn::Expr, has_semi: bool, rest: &[Item], ctl: Ctl, ind: usize) -> R {
         use syn::Expr as E;
         let c = compact(e);
-        if let Some((_, var, rhs)) = self.spec.effects.iter().find(|(k, _, _)| *k == c) {
+        let effs: Vec<(&str, &str)> = self.spec.effects.iter().filter(|(k, _, _)| *k == c).map(|(_, v, r)| (*v, *r)).collect();
+        if effs.len() == 1 {
             if !has_semi && !rest.is_empty() {
                 return Err(format!("effect `{c}` used as a value"));
             }
-            return self.assign_named(var, rhs.to_string(), rest, ctl, ind);
+            return self.assign_named(effs[0].0, effs[0].1.to_string(), rest, ctl, ind);
+        }
+        if effs.len() > 1 {
+            // one statement that updates several mutable locals (a call of another `&mut self` method): the updates
+            // are SIMULTANEOUS - every right-hand side sees the values before the statement
+            if !has_semi && !rest.is_empty() {
+                return Err(format!("effect `{c}` used as a value"));
+            }
+            for (var, _) in &effs {
+                match self.local(var) {
+                    Some(true) => {}
+                    _ => return Err(format!("effect on `{var}` which is not a `let mut` local")),
+                }
+                if ctl == Ctl::Value || (self.in_loop && ctl != Ctl::Loop && self.state.contains(&var.to_string())) {
+                    return Err(format!("effect on `{var}` inside a value block"));
+                }
+            }
+            let r = self.seq(rest, ctl, ind)?;
+            let lhs: Vec<String> = effs.iter().map(|(v, _)| lean_ident(v)).collect();
+            let rhs: Vec<String> = effs.iter().map(|(_, r)| r.to_string()).collect();
+            return Ok(format!("{}let ({}) := ({})\n{r}", pad(ind), lhs.join(", "), rhs.join(", ")));
         }
         match e {
             E::Macro(m) if is_log(&m.mac) => self.seq(rest, ctl, ind),
@@ -1827,7 +2127,12 @@ impl<'a> Tr<'a> {
                 if !rest.is_empty() && !matches!(rest[0], Item::Bind(_)) && (ctl != Ctl::Fn || self.in_loop) {
                     return Err("`match` followed by further statements inside a loop or value block".into());
                 }
-                let scrut = self.expr(&m.expr, ind)?;
+                // the scrutinee may be mapped as a whole under the key `match <expr>` (e.g. the kind of a loop element
+                // whose enum is generated without payload)
+                let scrut = match self.name(&format!("match {}", compact(&*m.expr))) {
+                    Some(v) => v.to_string(),
+                    None => self.expr(&m.expr, ind)?,
+                };
                 let arms: Vec<&syn::Arm> = m.arms.iter().collect();
                 self.match_arms(&scrut, &arms, rest, ctl, ind)
             }
@@ -2279,6 +2584,9 @@ pub fn run(repo: &Path, table: &str) -> String {
         for (c, b, var, new) in s.cond_effects {
             out.push_str(&format!("    condition `{c}` ↦ `{b}`, and where it is true `{var} := {new}` first\n"));
         }
+        for (en, vs) in s.extern_enums {
+            out.push_str(&format!("    `enum {en}` belongs to a dependency: generated without payload from the variant list {}\n", vs.join(" | ")));
+        }
         if let Some((text, lean)) = s.tail {
             out.push_str(&format!("    the closing statements `{text}` (compared verbatim) ↦ `{lean}`\n"));
         }
@@ -2307,6 +2615,17 @@ pub fn run(repo: &Path, table: &str) -> String {
                 }
                 Err(e) => res = Err(e),
             }
+        }
+        for (en, vs) in s.extern_enums {
+            if enums_done.contains(en) {
+                continue;
+            }
+            text.push_str(&format!("/-- `enum {en}` (a dependency's type; variants from the spec, payloads dropped). -/\ninductive {en} where\n"));
+            for v in *vs {
+                text.push_str(&format!("  | {}\n", lean_ident(v)));
+            }
+            text.push_str("deriving DecidableEq, Repr\n\n");
+            enums_done.push(en);
         }
         for (sn, file, params, _) in s.structs {
             if enums_done.contains(sn) {
